@@ -453,7 +453,7 @@ func TestC20(t *testing.T) {
 	workers := 2
 	if r.Thorough() {
 		mode.Readers = 2
-		workers = 6
+		workers = 4
 	}
 	if rf := r.Replay(); rf != nil {
 		var w caseWitness
@@ -470,8 +470,8 @@ func TestC20(t *testing.T) {
 		r.Finish(0)
 		return
 	}
-	n := r.N(2500, 10000)
-	nStress := r.N(40, 300) // the last nStress cases are reader stress cases
+	n := r.N(2500, 6000)
+	nStress := r.N(40, 200) // the last nStress cases are reader stress cases
 	master := r.Rand("cases")
 	seeds := make([][2]uint64, n)
 	for i := range seeds {
@@ -519,5 +519,5 @@ func TestC20(t *testing.T) {
 	}
 	r.Extra("cache_sizes", []int{1, 2, 4})
 	r.Extra("lag_bounds", []int{0, 1, 2, 3, 6, 12})
-	r.Finish(r.N(800, 4000))
+	r.Finish(r.N(800, 2500))
 }
